@@ -481,7 +481,8 @@ func (d *Data) GetTopElementType(ctx *datastore.VersionedCtx, n int, i IndexType
 
 	// Iterate through the first N kv then abort.
 	shortCircuitErr := fmt.Errorf("Found data, aborting.")
-	lsz := make(LabelSizes, n)
+	// N comes from the URL: allocate for what is found, not for what was asked.
+	var lsz LabelSizes
 	rank := 0
 	err = store.ProcessRange(ctx, begTKey, endTKey, nil, func(chunk *storage.Chunk) error {
 		idxType, sz, label, err := DecodeTypeSizeLabelTKey(chunk.K)
@@ -491,7 +492,7 @@ func (d *Data) GetTopElementType(ctx *datastore.VersionedCtx, n int, i IndexType
 		if idxType != i {
 			return fmt.Errorf("bad iteration of keys: expected index type %s, got %s", i, idxType)
 		}
-		lsz[rank] = LabelSize{Label: label, Size: sz}
+		lsz = append(lsz, LabelSize{Label: label, Size: sz})
 		rank++
 		if rank >= n {
 			return shortCircuitErr
@@ -501,7 +502,10 @@ func (d *Data) GetTopElementType(ctx *datastore.VersionedCtx, n int, i IndexType
 	if err != shortCircuitErr && err != nil {
 		return nil, err
 	}
-	return lsz[:rank], nil
+	if lsz == nil {
+		lsz = LabelSizes{}
+	}
+	return lsz, nil
 }
 
 // GetLabelsByThreshold returns a sorted list of labels that meet the given minSize threshold.
